@@ -1,6 +1,8 @@
 /* C13 — contract of of_add_to_symbol(to, from, symbol_size)  [of_symbol.c], enforced on the real function.
  *
- *  requires  to, from: distinct objects of EXACTLY symbol_size bytes; symbol_size <= OFV_MAX_SIZE
+ *  requires  to, from: distinct buffers of EXACTLY symbol_size bytes (objects end at symbol_size), at every alignment
+ *            to % 8 == in_ta, from % 8 == in_fa (in_ta/in_fa bytes of leading slack, asserted unchanged; CBMC's pointer
+ *            value is object|offset, so offset a inside a fresh object IS address = a mod 8); symbol_size <= OFV_MAX_SIZE
  *  ensures   for every byte index g_k < symbol_size:  to[g_k] == old(to[g_k]) ^ from[g_k]        (post.value)
  *            from[g_k] unchanged                                                                  (post.from_unchanged)
  *  frame     nothing but to[0..symbol_size) is written, nothing beyond symbol_size is read or written:
@@ -16,24 +18,42 @@
 #define OFV_MAX_SIZE 16777216u
 #endif
 
-UINT32 in_size, g_k;
-UINT8 in_to_k, in_from_k;
+UINT32 in_size, g_k, in_ta, in_fa, g_s;
+UINT8 in_to_k, in_from_k, in_slack_s;
 
 int main(void)
 {
+#ifdef OFV_SIZE
+	in_size = OFV_SIZE;	/* bounded variant: size is a harness constant, no loop contracts needed */
+#else
 	IN(UINT32, in_size);
+	REQUIRES(in_size >= 1);	/* size 0 is covered by the constant-size runs (the loop invariants mention byte g_k) */
+#endif
 	REQUIRES(in_size <= OFV_MAX_SIZE);
+	IN(UINT32, in_ta);
+	IN(UINT32, in_fa);
+	IN(UINT32, g_s);
+	REQUIRES(in_ta < 8 && in_fa < 8 && (in_ta == 0 ? g_s == 0 : g_s < in_ta));
 	IN(UINT32, g_k);
-	REQUIRES(g_k < in_size);
-	UINT8 *to = OFV_MALLOC(in_size), *from = OFV_MALLOC(in_size);
-	REQUIRES(to != NULL && from != NULL);
-	IN_MEM(UINT8, in_to_k, to[g_k]);
-	IN_MEM(UINT8, in_from_k, from[g_k]);
+	REQUIRES(in_size == 0 ? g_k == 0 : g_k < in_size);
+	UINT8 *tbase = OFV_MALLOC(in_ta + in_size), *fbase = OFV_MALLOC(in_fa + in_size);
+	REQUIRES(tbase != NULL && fbase != NULL);
+	UINT8 *to = tbase + in_ta, *from = fbase + in_fa;
+	if (in_size > 0) {
+		IN_MEM(UINT8, in_to_k, to[g_k]);
+		IN_MEM(UINT8, in_from_k, from[g_k]);
+	}
+	if (in_ta > 0)
+		IN_MEM(UINT8, in_slack_s, tbase[g_s]);
 
 	of_add_to_symbol(to, from, in_size);
 
-	ENSURES(to[g_k] == (UINT8)(in_to_k ^ in_from_k), "post.value");
-	ENSURES(from[g_k] == in_from_k, "post.from_unchanged");
+	if (in_size > 0) {
+		ENSURES(to[g_k] == (UINT8)(in_to_k ^ in_from_k), "post.value");
+		ENSURES(from[g_k] == in_from_k, "post.from_unchanged");
+	}
+	if (in_ta > 0)
+		ENSURES(tbase[g_s] == in_slack_s, "post.nothing_written_before_to");
 	REACHED("after_call");
 	OFV_MAIN_RETURN;
 }
